@@ -2,11 +2,11 @@ module verifharness
 
 go 1.24.2
 
-require github.com/richardwilkes/toolbox v0.0.0
-
 require (
-	golang.org/x/exp v0.0.0-20250305212735-054e65f0b394 // indirect
-	gopkg.in/yaml.v3 v3.0.1 // indirect
+	github.com/richardwilkes/toolbox v0.0.0
+	gopkg.in/yaml.v3 v3.0.1
 )
+
+require golang.org/x/exp v0.0.0-20250305212735-054e65f0b394 // indirect
 
 replace github.com/richardwilkes/toolbox => /repo
